@@ -61,6 +61,7 @@ func (tm *tMap) markFieldFiltered(fieldName string) {
 // trackedMaps defines a type for tracking maps while processing event.
 type trackedMaps struct {
 	tracked map[uintptr]*tMap // a map of all tracked maps using each map's addr as the index
+	parent  *trackedMaps      // the set being swept when this one was created for a nested value
 	l       sync.RWMutex
 }
 
@@ -127,6 +128,17 @@ func (maps *trackedMaps) getTracked(ptr uintptr) (*tMap, bool) {
 	defer maps.l.RUnlock()
 	tm, ok := maps.tracked[ptr]
 	return tm, ok
+}
+
+// isTracked reports whether the map is tracked by this set, or by one of the
+// sets which were being swept when this one was created.
+func (maps *trackedMaps) isTracked(ptr uintptr) bool {
+	for m := maps; m != nil; m = m.parent {
+		if _, ok := m.getTracked(ptr); ok {
+			return true
+		}
+	}
+	return false
 }
 
 // unfiltered returns all the maps which haven't been tracked as filtered
@@ -305,13 +317,14 @@ func (maps *trackedMaps) processUnfiltered(ctx context.Context, ef *Filter, filt
 				// it) is swept separately, with its own record of the fields
 				// which were already filtered: sweeping it from here as well
 				// would redact those fields.
-				if _, ok := maps.getTracked(field.Pointer()); ok {
+				if maps.isTracked(field.Pointer()) {
 					continue
 				}
 				newMaps, err := newTrackedMaps(&tMap{value: field})
 				if err != nil {
 					return fmt.Errorf("%s: unable to filter map: %w", op, err)
 				}
+				newMaps.parent = maps
 				if err := newMaps.processUnfiltered(ctx, ef, filterOverrides, opt...); err != nil {
 					return fmt.Errorf("%s: unable to process maps found in map: %w", op, err)
 				}
